@@ -65,12 +65,15 @@ def register(reg):
                      FRI, "self._header.nbits == nbits",
                      "self._header.nchans * nbits == 8 * stride",       # one sample is a whole number of bytes
                      f"{TOTAL} == self._header.nsamples * stride",       # the stream holds whole samples only
-                     "gulp >= 1", "start >= 0", "N >= 1", "start + N <= self._header.nsamples"],
+                     # a range that runs past the end of the data is NOT excluded here: such a plan cannot be honoured and
+                     # must be rejected before anything is yielded (raises clause below)
+                     "gulp >= 1", "start >= 0", "N >= 1"],
                  modifies=["self._file.ifile_cur", "self._file.file_obj"],
                  ghost_init={"goff": "0", "_nyield": "0"},
                  yield_ghost={"goff": "goff + yielded[0] - S", "_nyield": "_nyield + 1"},
-                 raises=[Raises("ValueError", when="S >= G")])
-    # rejected (before anything is yielded) exactly when skipback >= effective gulp; every other plan is honoured
+                 raises=[Raises("ValueError", when="S >= G or start + N > self._header.nsamples")])
+    # rejected (before anything is yielded) exactly when skipback >= effective gulp or the range leaves the data; every
+    # other plan is honoured
     c.yields = [
         ("count", "yielded[0] * self._header.nchans == len(yielded[2]) and 0 <= yielded[0] and yielded[0] <= G "
                   "and yielded[0] <= gulp", "P"),
